@@ -629,25 +629,26 @@ def keyLevel (levels : List Level) (rank : String) : Option Nat :=
 def specHeader (levels : List Level) (i : Nat) : Line :=
   headerOf ((levels.take (i + 1)).map (·.rank))
 
-/-- the operand's own coordinate at a level it takes part in -/
-def opCoordAt (lv : Level) (x : Nat) (c : Int) : Option Int :=
+/-- the operand's own coordinate at a level it takes part in; the flag says that a missing element
+    is replaced by a default (the follower of a leader-follower intersection: `getPayload`) -/
+def opCoordAt (lv : Level) (x : Nat) (c : Int) : Option (Int × Bool) :=
   match lv.src with
-  | .fiber a => if a = x then some c else none
-  | .and a b => if a = x ∨ b = x then some c else none
-  | .lf a b => if a = x ∨ b = x then some c else none
-  | .proj a _ off _ _ _ => if a = x then some (c - off) else none
+  | .fiber a => if a = x then some (c, false) else none
+  | .and a b => if a = x ∨ b = x then some (c, false) else none
+  | .lf a b => if a = x then some (c, false) else if b = x then some (c, true) else none
+  | .proj a _ off _ _ _ => if a = x then some (c - off, false) else none
 
 /-- follow the coordinates of the enclosing loops down operand `x` -/
-def navigate (x : Nat) : AnyTree → List Level → List Int → Option AnyTree
+def navigate (dflt : Int) (x : Nat) : AnyTree → List Level → List Int → Option AnyTree
   | t, [], _ => some t
   | t, _ :: _, [] => some t
   | t, lv :: ls, c :: cs =>
     match opCoordAt lv x c with
-    | none => navigate x t ls cs
-    | some oc =>
+    | none => navigate dflt x t ls cs
+    | some (oc, dfl) =>
       match aget (children t) oc with
-      | some s => navigate x s ls cs
-      | none => none
+      | some s => navigate dflt x s ls cs
+      | none => if dfl then navigate dflt x (anyDefault dflt (depthBelow t)) ls cs else none
 
 /-- the coordinates a level's source yields at a point (declaratively: set operations on the
     presented coordinates) -/
@@ -693,7 +694,7 @@ def addrRowOK (dflt : Int) (literal : Bool) (levels : List Level) (ops : List An
   match levels[i]?, pt.getLast? with
   | some lv, some c =>
     let q := pt.dropLast
-    let getOp := fun x => navigate x (ops.getD x ⟨0, (0 : Int)⟩) (levels.take i) q
+    let getOp := fun x => navigate dflt x (ops.getD x ⟨0, (0 : Int)⟩) (levels.take i) q
     let conc := fun x => if literal then storageOK dflt (getOp x) c pos else ordinalOK dflt (getOp x) c pos
     let l0 := if lv.pop then 2 else 0
     let ys := specYields dflt getOp lv.src
